@@ -164,6 +164,12 @@ Qed.
 
 (* ================================================================ *)
 (* IPv6 AppendPayload / SetPayload on the 40-byte header at offset o *)
+Lemma blit_set_nth_comm (l : bytes) off src i v : (i < off)%nat -> blit off src (set_nth i v l) = set_nth i v (blit off src l).
+Proof.
+  revert off i. induction l as [|x l IH]; intros off i H; [destruct off, i; reflexivity|].
+  destruct off as [|off]; [lia|]. destruct i as [|i]; cbn [set_nth blit]; [reflexivity|]. f_equal. apply IH. lia.
+Qed.
+
 Theorem glue_ip6_append o b payload nh :
   length b = SendBase.EthMaxSize -> (o + 40 <= length b)%nat -> nh < 256 ->
   match Send.ip6_append_payload o b payload nh with
@@ -177,15 +183,35 @@ Proof.
   unfold Send.ip6_append_payload, ip6_append, at_off_len, cap. cbn [arr len orb].
   rewrite skipn_length, HL.
   destruct (Nat.ltb_spec (SendBase.EthMaxSize - o - 40) (length payload)) as [C|C]; [reflexivity|].
-  eexists. split.
-  { unfold copyfrom, put16, seti, reslice, cap. stepw. reflexivity. }
-  split; [reflexivity|]. cbn [arr].
-  rewrite <- (firstn_skipn o b) at 3.
+  set (n := length payload) in *.
+  assert (Hn : N.of_nat n < 65536) by (unfold SendBase.EthMaxSize in *; lia).
+  assert (Eu : u16 (N.of_nat n) = N.of_nat n) by (unfold u16; apply N.mod_small; exact Hn).
+  pose proof (firstn_skipn o b) as Hsplit.
   assert (Hp : length (firstn o b) = o) by (rewrite firstn_length; blia).
-  generalize dependent (skipn o b). generalize dependent (firstn o b). intros pre Hp X.
+  assert (HX : (40 + n <= length (skipn o b))%nat) by (rewrite skipn_length; unfold SendBase.EthMaxSize in *; blia).
+  set (pre := firstn o b) in *. set (X := skipn o b) in *. clearbody pre X.
+  rewrite <- Hsplit. clear Hsplit HL Hb b.
+  set (A := set_nth 4 (hi8 (N.of_nat n)) (set_nth (4 + 1) (lo8 (N.of_nat n)) X)).
+  assert (LA : length A = length X) by (unfold A; rewrite !set_nth_length; reflexivity).
+  assert (E4 : nth 4 A 0 = hi8 (N.of_nat n)) by (unfold A; apply nth_set_nth_eq; rewrite set_nth_length; blia).
+  assert (E5 : nth (4 + 1) A 0 = lo8 (N.of_nat n)).
+  { unfold A. rewrite nth_set_nth_neq by lia. apply nth_set_nth_eq. blia. }
+  eexists. split.
+  { unfold reslice, put16, cap. cbn [arr len]. rewrite Eu.
+    destruct (Nat.leb_spec (40 + n) (length X)) as [_|C']; [|blia]. cbn [bind arr len].
+    destruct (Nat.leb_spec (4 + 2) (length X)) as [_|C']; [|blia]. cbn [bind arr len]. fold A.
+    unfold ip6_payloadlen, be16_at, cap. cbn [arr]. rewrite LA.
+    destruct (Nat.leb_spec (4 + 2) (length X)) as [_|C']; [|blia]. cbn [bind].
+    rewrite E4, E5, be16_hi_lo by exact Hn. rewrite Nat2N.id.
+    unfold copyto, seti, cap. cbn [arr len]. rewrite LA.
+    destruct (Nat.leb_spec 40 (40 + n)) as [_|C']; [|blia].
+    destruct (Nat.leb_spec (40 + n) (length X)) as [_|C']; [|blia]. cbn [andb bind arr len].
+    destruct (Nat.ltb_spec 6 (40 + n)) as [_|C']; [|blia]. reflexivity. }
+  split; [reflexivity|]. cbn [arr].
   rewrite Hu. rewrite <- ?Nat.add_assoc. cbn [Nat.add].
-  push_pre Hp. f_equal. unfold SendBase.cpy, SendBase.put16.
-  rewrite !firstn_all2 by blia. reflexivity.
+  push_pre Hp. f_equal. unfold A, SendBase.cpy, SendBase.put16.
+  replace (40 + n - 40)%nat with n by blia. rewrite !firstn_all2 by (unfold n; blia).
+  rewrite !blit_set_nth_comm by lia. rewrite Eu. reflexivity.
 Qed.
 
 Theorem glue_ip6_set_payload o b n nh :
